@@ -33,6 +33,7 @@ RULE = (
     "mixed containers. Oracle: exact mGH on a largest connected component (any one when tied). "
     "state = (pair, container forms); transition = one gromov_hausdorff call; non-trivial = a graph is "
     "disconnected or the two containers differ."
+    " No \"disconnected\" warning for connected graphs."
 )
 ASSUMPTIONS = [
     "all scipy.sparse matrix formats (csr, csc, lil, coo, bsr, dok, dia) and csr/coo sparse arrays are part of the space",
